@@ -414,6 +414,9 @@ func Glob(pattern string) ([]string, error) {
 
 // normName replaces long digit runs (timestamps, random temp-file suffixes) in a file name used for diagnostics.
 func normName(n string) string {
+	if strings.HasPrefix(n, "bloom-filter-") {
+		return "bloom-filter-N.tmp" // random temp-file suffix of any length
+	}
 	b := []byte(n)
 	out := make([]byte, 0, len(b))
 	run := 0
